@@ -134,6 +134,9 @@ pub async fn setup_leveraged(w: &mut World, m: &mut Mon, r: &mut R, g: usize, le
     let ta = w.ta_of(a, db);
     let ak = auth.pubkey();
     let max = bisect_max(w, m, &[&auth], hi, |w, x| vec![w.ix_borrow(a, db, ak, ta, x)]).await?;
+    if max == 0 {
+        return None;
+    }
     let amt = ((max as f64) * frac) as u64;
     let amt = amt.clamp(1, max);
     let i = w.ix_borrow(a, db, ak, ta, amt);
@@ -150,6 +153,16 @@ pub async fn liquidation(w: &mut World, m: &mut Mon, r: &mut R, lev: &Lev, lq: u
     let shock = pick(r, &[0.97f64, 0.9, 0.8, 0.6, 0.4]);
     scale_price_any(w, lev.ca, shock).await;
     let lk = w.auth_of(lq);
+    // keep lowering the collateral price until the account just becomes liquidatable
+    for _ in 0..14 {
+        let i = w.ix_liquidate(lq, lev.acct, lev.ca, lev.db, lk.pubkey(), 1);
+        let o = w.probe(m, &[i], &[&lk]).await;
+        if o.custom_code() == Some(crate::mon::err::HEALTHY_ACCOUNT) {
+            scale_price_any(w, lev.ca, pick(r, &[0.95f64, 0.9, 0.8])).await;
+        } else {
+            break;
+        }
+    }
     // make sure the liquidator can afford it
     for b in [lev.db, lev.ca] {
         if r.gen_bool(0.7) {
@@ -158,6 +171,25 @@ pub async fn liquidation(w: &mut World, m: &mut Mon, r: &mut R, lev: &Lev, lq: u
         }
     }
     let (le, ca, db, lkp) = (lev.acct, lev.ca, lev.db, lk.pubkey());
+    // sometimes the liquidator itself owes the collateral asset / holds no deposit in the debt
+    // bank, so that its legs flip (debt -> deposit in the asset bank, deposit -> debt in the debt bank)
+    if r.gen_bool(0.3) {
+        let ta = w.ta_of(lq, ca);
+        let i = w.ix_withdraw(lq, ca, lkp, ta, 0, Some(true));
+        let _ = w.exec(m, &[i], &[&lk]).await;
+        let small = pick(r, &[1_000u64, 100_000, 5_000_000]);
+        let i = w.ix_borrow(lq, ca, lkp, ta, small);
+        let o = w.exec(m, &[i], &[&lk]).await;
+        m.r.count(if o.ok() { "scen.liquidator_owes_collateral_asset" } else { "scen.liquidator_borrow_of_collateral_asset_rejected" });
+    }
+    if r.gen_bool(0.2) {
+        let ta = w.ta_of(lq, db);
+        let i = w.ix_withdraw(lq, db, lkp, ta, 0, Some(true));
+        let o = w.exec(m, &[i], &[&lk]).await;
+        if o.ok() {
+            m.r.count("scen.liquidator_without_deposit_in_debt_bank");
+        }
+    }
     // controls and small amounts
     for amt in [0u64, 1, 2, 1000] {
         let i = w.ix_liquidate(lq, le, ca, db, lkp, amt);
@@ -561,7 +593,7 @@ pub async fn portfolio(w: &mut World, m: &mut Mon, r: &mut R, g: usize, lender: 
         let ta = w.ta_of(a, db);
         let mx = bisect_max(w, m, &[&auth], hi, |w, x| vec![w.ix_borrow(a, db, ak, ta, x)]).await;
         m.r.count(if mx.is_some() { "scen.portfolio_borrow_boundary_found" } else { "scen.portfolio_borrow_not_possible" });
-        if let Some(mx) = mx {
+        if let Some(mx) = mx.filter(|x| *x > 0) {
             let amt = ((mx as f64) * pick(r, &[0.3f64, 0.6, 0.9, 1.0])) as u64;
             let i = w.ix_borrow(a, db, ak, ta, amt.clamp(1, mx));
             let _ = w.exec(m, &[i], &[&auth]).await;
